@@ -17,7 +17,7 @@ RULE = ('(a) DirectionMonitor on every depth-0 public UTPM call with P>1 while t
         'against the P=1 run on direction p alone (1e-11 x cumulative scale); class = (call or program, P, shapes); non-trivial = '
         'the directions have different zeroth coefficients')
 ASSUMPTIONS = ['the same operation on the single-direction polynomial is the reference', 'rounding of vectorised kernels: 1e-11 relative to the cumulative magnitude']
-REQUIRED = ['direction-shadow', 'structure:lu', 'structure:det', 'structure:eigh', 'structure:qr', 'structure:branches', 'structure:inplace', 'program:forward', 'program:reverse']
+REQUIRED = ['direction-shadow', 'structure:lu', 'structure:det', 'structure:eigh', 'structure:qr', 'structure:branches', 'structure:inplace', 'structure:magnitudes', 'structure:jacobian', 'program:forward', 'program:reverse']
 
 _mon = None
 
@@ -47,7 +47,7 @@ def cases(tier, seed):
     for rep in range(reps):
         for D in (1, 2, 4):
             for P in (2, 3):
-                for k in ('lu', 'det', 'eigh', 'qr', 'branches', 'inplace'):
+                for k in ('lu', 'det', 'eigh', 'qr', 'branches', 'inplace', 'magnitudes', 'jacobian'):
                     out.append({'kind': 'structure', 'seed': case_seed('C11', seed, k, D, P, rep), 'params': {'what': k, 'D': D, 'P': P}})
     for prog in progs.cat():
         if 'fancy' in prog.tags:
@@ -99,6 +99,39 @@ def _structure(ctx, p, rng):
                 algopy.qr(UTPM(a))
             except Exception:
                 ctx.skip('unsupported:qr-rank-deficient')
+    elif what == 'magnitudes':
+        # one direction with close (but distinct) eigen/singular values, another one with entries 1e4..1e6 times larger:
+        # thresholds must be decided per direction
+        big = 10.0 ** float(rng.integers(4, 7))
+        a = np.zeros((D, P, n, n))
+        for pp in range(P):
+            Qm, _ = np.linalg.qr(rng.normal(size=(n, n)))
+            if pp == 0:
+                lam = np.array([1.0, 1.0 + 10.0 ** -float(rng.integers(5, 7)), 3.0])
+                a[0, pp] = (Qm * lam) @ Qm.T
+                a[1:, pp] = 0.3 * rng.normal(size=(D - 1, n, n))
+            else:
+                a[0, pp] = big * gen.sym_with_gaps(rng, n)
+                a[1:, pp] = big * 0.3 * rng.normal(size=(D - 1, n, n))
+        a = 0.5 * (a + np.swapaxes(a, -1, -2))
+        algopy.eigh(UTPM(a)); algopy.svd(UTPM(a)); algopy.qr(UTPM(a)); algopy.inv(UTPM(a + 5 * np.eye(n)))
+    elif what == 'jacobian':
+        # CGraph.jacobian with a Taylor-polynomial argument carrying several different directions
+        from .. import polyprog as PP
+        N, M = 3, int(rng.integers(2, 4))
+        polys = [PP.random_poly(rng, N, 3, 4) for _ in range(M)]
+        f = lambda x: PP.evaluate(algopy, polys, x, -1)
+        probe.S.suppress = True
+        try:
+            cg, _ = progs.record(f, [rng.normal(size=N)])
+            xc = gen.series_data(rng, max(D, 2), P, (N,), 'R', 'random', False, 0.5)
+            J = cg.jacobian(UTPM(xc.copy())).data.copy()
+            for pp in range(P):
+                J1 = cg.jacobian(UTPM(xc[:, pp:pp + 1].copy())).data
+                if J1.shape != J[:, pp:pp + 1].shape or not np.allclose(J[:, pp:pp + 1], J1, rtol=1e-11, atol=1e-11 * (1 + np.max(np.abs(J1)))):
+                    ctx.violation('direction:CGraph.jacobian:value', {'D': D, 'P': P, 'M': M, 'direction': pp}); return
+        finally:
+            probe.S.suppress = False
     elif what == 'inplace':
         # in-place operators whose right operand has lower rank, with the direction count equal to an element axis (P == N)
         for shape in ((P,), (P, P), (2, P)):
@@ -152,11 +185,13 @@ def _program(ctx, p, rng):
             try:
                 cg.pullback([UTPM(ybar.copy())])
                 xbfull = [fx.xbar.data.copy() for fx in cg.independentFunctionList]
+                if not all(np.all(np.isfinite(xb)) for xb in xbfull) or max(np.max(np.abs(xb)) for xb in xbfull) > 1e8:
+                    rev = False; ctx.skip('out_of_domain:nonfinite-or-huge-adjoint')
             except Exception:
                 rev = False
         except Exception:
             ctx.skip('replay-raises:' + name); return
-        if not np.all(np.isfinite(yfull)):
+        if not np.all(np.isfinite(yfull)) or (yfull.size and np.max(np.abs(yfull)) > 1e8):
             ctx.skip('out_of_domain:nonfinite'); return
         for pp in range(P):
             cg.pushforward([UTPM(x[:, pp:pp + 1].copy()) for x in xs])
